@@ -1,6 +1,7 @@
 """Exploration of the abstract state graph: hooks that give Bytes-field stores their tape
 semantics, canonicalisation (position re-tokenisation, cell renumbering, gap saturation),
 loop-head subsumption, counter generalisation, and the worklist driver."""
+import os
 import sys
 import time
 from . import mir as M
@@ -1061,6 +1062,15 @@ class Budget(Exception):
     pass
 
 
+def current_rss_kb():
+    """Resident set size of this process now (not the high-water mark: workers are reused)."""
+    try:
+        with open("/proc/self/statm") as fh:
+            return int(fh.read().split()[1]) * (os.sysconf("SC_PAGE_SIZE") // 1024)
+    except Exception:
+        return 0
+
+
 class Explorer:
     def __init__(self, prog, hooks=None, max_states=400000, max_seconds=3600):
         self.p = prog
@@ -1072,6 +1082,7 @@ class Explorer:
         self.visited = {}  # key -> list of fact dicts
         self.max_states = max_states
         self.max_seconds = max_seconds
+        self.rss0_kb = current_rss_kb()  # growth is measured from here (a reused worker may start high)
         self.results = []  # finished states
         self.unanalysable = []
         self.nstates = 0
@@ -1103,8 +1114,7 @@ class Explorer:
                         if time.time() - t0 > self.max_seconds:
                             raise Budget("exploration budget exceeded (%d states, %d transitions)" % (self.nstates, self.ntrans))
                         if getattr(self, "max_rss_kb", None):
-                            import resource
-                            if resource.getrusage(resource.RUSAGE_SELF).ru_maxrss > self.max_rss_kb:
+                            if current_rss_kb() - self.rss0_kb > self.max_rss_kb:
                                 raise Budget("exploration budget exceeded (memory, %d states)" % self.nstates)
                     if st.done is not None:
                         self.finish(st)
